@@ -59,8 +59,14 @@ type Case struct {
 	// HardH > 0: the network has a hard-coded filter-header checkpoint at
 	// that height; HardMatch: its value is the main chain's filter header
 	// there (otherwise a value no file can carry).
-	HardH     int  `json:"hard_h,omitempty"`
-	HardMatch bool `json:"hard_match,omitempty"`
+	// SeamAfterBurst: the stores end right after a run of blocks whose
+	// miners' clocks ran far ahead (the first such place of the generated
+	// chain at or above height 11 is taken instead of PreB/PreF/Start), so
+	// that the median time of the file's first headers is decided by
+	// stored headers.
+	SeamAfterBurst bool `json:"seam_after_burst,omitempty"`
+	HardH          int  `json:"hard_h,omitempty"`
+	HardMatch      bool `json:"hard_match,omitempty"`
 }
 
 func genCase(t *rapid.T) Case {
@@ -104,6 +110,28 @@ func genCase(t *rapid.T) Case {
 		c.FEnd = rapid.IntRange(c.FStart, n).Draw(t, "fend")
 	}
 	c.Batch = rapid.IntRange(1, 40).Draw(t, "batch")
+	if kit.Uni(t, "seam", 8) == 0 && n >= 16 {
+		// The seam between stored headers and file: level stores with at
+		// least eleven headers, a file that starts at the very next height,
+		// bursty clocks, and a header among the first eleven of the file
+		// whose timestamp is not after the median of its true eleven
+		// predecessors - most of which are stored, not in the file. The
+		// validation context of the file's first headers must reach back
+		// into the stores.
+		c.World.Pace = 4
+		c.World.Branches = nil
+		c.PreBranch = false
+		c.PreB = rapid.IntRange(11, n-3).Draw(t, "seampre")
+		c.PreF = c.PreB
+		c.Start, c.End = c.PreB+1, n
+		c.FStart, c.FEnd = c.Start, c.End
+		c.WrongMagic, c.SwapTypes, c.FlipFile, c.FailCommit, c.FileFail = false, false, "", 0, ""
+		c.Mut = kit.MutMTP
+		c.MutK = rapid.IntRange(0, min(10, c.End-c.Start)).Draw(t, "seamk")
+		c.SeamAfterBurst = rapid.Bool().Draw(t, "seamburst")
+		c.HardH = 0
+		return c
+	}
 	if kit.Uni(t, "hard", 4) == 0 {
 		c.HardH = rapid.IntRange(1, n).Draw(t, "hardh")
 		if kit.Uni(t, "hardnear", 2) == 0 {
@@ -171,6 +199,27 @@ func runCase(t *testing.T, c Case) (v kit.Verdict) {
 	var fh []headerfs.FilterHeader
 	// The filter index resolves heights through the block index, so the
 	// filter store can lag but never lead the block store.
+	if c.SeamAfterBurst {
+		// first height h >= 11 such that header h and at least five of
+		// the eleven newest headers carry later timestamps than the header
+		// that follows
+		for h := 11; h+4 < len(main); h++ {
+			later := 0
+			for k := 0; k < 11; k++ {
+				if main[h-k].Header.Timestamp.After(main[h+1].Header.Timestamp) {
+					later++
+				}
+			}
+			if later >= 5 && main[h].Header.Timestamp.After(main[h+1].Header.Timestamp) {
+				c.PreB, c.PreF = h, h
+				c.Start, c.FStart = h+1, h+1
+				c.End, c.FEnd = len(main)-1, len(main)-1
+				c.MutK = min(c.MutK, c.End-c.Start)
+				v.Class("seam:after-burst")
+				break
+			}
+		}
+	}
 	preB := min(c.PreB, len(prePath)-1)
 	preF := min(c.PreF, preB)
 	for i := 1; i <= max(preB, preF); i++ {
